@@ -44,7 +44,9 @@ Inductive kernel_fx :=
 | FxRaiseNotGenerator
 | FxSetCallbacksEmpty
 | FxSetGenerator
-| FxNewInitialize.
+| FxNewInitialize
+| FxRaiseValuePending
+| FxReturnValue.
 
 (* Environment.schedule  (def schedule(self, event: Event, priority: EventPriority=NORMAL, delay: SimTime=0) -> None:) *)
 Definition gen_Environment_schedule (now : Q) (delay : Q) (priority : Z)
@@ -149,3 +151,25 @@ Definition gen_Process_init (is_generator : bool)
 Definition gen_Process_is_alive (pending : bool)
   : list kernel_fx * bool :=
   ([], pending).
+
+(* Event.triggered  (@property) *)
+Definition gen_Event_triggered (triggered : bool)
+  : list kernel_fx * bool :=
+  ([], triggered).
+
+(* Event.processed  (@property) *)
+Definition gen_Event_processed (processed : bool)
+  : list kernel_fx * bool :=
+  ([], processed).
+
+(* Event.ok  (@property) *)
+Definition gen_Event_ok (ok : bool)
+  : list kernel_fx * bool :=
+  ([], ok).
+
+(* Event.value  (@property) *)
+Definition gen_Event_value (pending : bool)
+  : list kernel_fx :=
+  (if pending
+   then [FxRaiseValuePending]
+   else [FxReturnValue]).
